@@ -47,8 +47,11 @@ theorem rt_arith {X f r : Rat} (hX1 : -2251799813685248 ≤ X) (hX2 : X ≤ 2251
     (e1 : (f - X / 65536000000).abs ≤ (X / 65536000000).abs / 9007199254740992)
     (e2 : (r - f * 65536000000).abs ≤ (f * 65536000000).abs / 9007199254740992 + 1 / 1024) :
     (r - X).abs < 1 ∧ (f * 65536000000).abs ≤ 4503599627370496 := by
-  simp only [Rat.abs] at e1 e2 ⊢
-  grind
+  rw [abs_le_iff] at e1 e2
+  rcases abs_cases (X / 65536000000) with ⟨h1, a1⟩ | ⟨h1, a1⟩ <;>
+  rcases abs_cases (f * 65536000000) with ⟨h2, a2⟩ | ⟨h2, a2⟩ <;>
+  rw [a1] at e1 <;> rw [a2] at e2 ⊢ <;>
+  exact ⟨abs_lt_iff.2 ⟨by grind, by grind⟩, by grind⟩
 
 theorem pow2_40_lit : pow2 40 = 1099511627776 := by decide
 theorem pow2_m11 : pow2 (-11) = 1 / 2048 := by rw [pow2_neg]; congr 1
@@ -73,28 +76,23 @@ theorem rtf_arith {p r S g : Rat} (hp : p.abs ≤ 1099511627776)
     (et : (S - r).abs < 1)
     (e2 : (g - S / 65536000000).abs ≤ (S / 65536000000).abs / 9007199254740992 + 1 / 1152921504606846976) :
     (g * 65536000000 - p).abs ≤ 1 + 1 / 2048 := by
-  simp only [Rat.abs] at hp e1 et e2 ⊢
-  grind
+  rw [abs_le_iff] at e1 e2
+  rw [abs_lt_iff] at et
+  rcases abs_cases p with ⟨h1, a1⟩ | ⟨h1, a1⟩ <;>
+  rcases abs_cases (S / 65536000000) with ⟨h2, a2⟩ | ⟨h2, a2⟩ <;>
+  rw [a1] at hp e1 <;> rw [a2] at e2 <;>
+  exact abs_le_iff.2 ⟨by grind, by grind⟩
 
 theorem rtf_arith0 {p r S : Rat} (hp : p.abs ≤ 1099511627776)
     (e1 : (r - p).abs ≤ p.abs / 9007199254740992 + 1 / 1152921504606846976)
     (et : (S - r).abs < 1) :
     r.abs ≤ 1099511627777 ∧ S.abs ≤ 1099511627778 := by
-  simp only [Rat.abs] at hp e1 et ⊢
-  grind
+  rw [abs_le_iff] at e1
+  rw [abs_lt_iff] at et
+  rcases abs_cases p with ⟨h1, a1⟩ | ⟨h1, a1⟩ <;> rw [a1] at hp e1 <;>
+  exact ⟨abs_le_iff.2 ⟨by grind, by grind⟩, abs_le_iff.2 ⟨by grind, by grind⟩⟩
 
 /-! ### drift -/
-
-/-- L1: seconds as a double -/
-theorem drift_L1 {D sec n fr Sv η : Rat} (hη0 : 0 ≤ η) (hη : η ≤ 1 / 1152921504606846976)
-    (hD : D = sec + n) (hDb : D.abs ≤ 17179869184)
-    (hpos : 0 ≤ D → 0 ≤ n ∧ n ≤ D) (hneg : D ≤ 0 → D ≤ n ∧ n ≤ 0)
-    (e1 : (fr - n).abs ≤ n.abs / 9007199254740992 + η)
-    (e2 : (Sv - (sec + fr)).abs ≤ (sec + fr).abs / 9007199254740992 + η) :
-    (Sv - D).abs ≤ D.abs * (3 / 9007199254740992) + 3 * η ∧
-    (sec + fr).abs ≤ 34359738368 ∧ Sv.abs ≤ 34359738368 ∧ n.abs ≤ 17179869184 := by
-  simp only [Rat.abs] at hDb e1 e2 ⊢
-  grind
 
 theorem abs_mul_le {a b A B : Rat} (ha : a.abs ≤ A) (hb : b.abs ≤ B) : (a * b).abs ≤ A * B := by
   rw [abs_mul]
@@ -120,8 +118,13 @@ theorem drift_L3 {x y Mv Rv E η : Rat} (hη0 : 0 ≤ η)
     (e4 : (Rv - Mv * 1000000000).abs ≤ (Mv * 1000000000).abs / 9007199254740992 + η) :
     (Rv - E).abs ≤ E.abs / 1125899906842624 := by
   subst hE
-  simp only [Rat.abs] at hη h e3 e4 ⊢
-  grind
+  rw [abs_mul_of_nonneg_right _ (by grind)] at hη e4 ⊢
+  rw [abs_le_iff] at h e3 e4
+  rcases abs_cases x with ⟨hx, ax⟩ | ⟨hx, ax⟩ <;>
+  rcases abs_cases y with ⟨hy, ay⟩ | ⟨hy, ay⟩ <;>
+  rcases abs_cases Mv with ⟨hm, am⟩ | ⟨hm, am⟩ <;>
+  rw [ax] at h hη ⊢ <;> rw [ay] at e3 <;> rw [am] at e4 <;>
+  exact abs_le_iff.2 ⟨by grind, by grind⟩
 
 theorem mul_le_mul' {a b c d : Rat} (ha : 0 ≤ a) (hab : a ≤ b) (hc : 0 ≤ c) (hcd : c ≤ d) :
     a * c ≤ b * d :=
@@ -133,12 +136,17 @@ theorem pow2_m175 : pow2 (-175) = 1 / 478904856520590268236983445984471619880855
 theorem pow2_50_lit : pow2 50 = 1125899906842624 := by decide
 
 /-- magnitude of the third rounding's result -/
-theorem drift_L3b {y Mv η : Rat} (hη0 : 0 ≤ η) (hη : η ≤ 1 / 1152921504606846976)
-    (hy : y.abs ≤ 17179869184)
+theorem drift_L3b {x y Mv η : Rat} (hη : η ≤ 1 / 1152921504606846976)
+    (hx : (x * 1000000000).abs ≤ 4611686018427387904)
+    (h : (y - x).abs ≤ x.abs * (3 / 9007199254740992) + 2 * η)
     (e3 : (Mv - y).abs ≤ y.abs / 9007199254740992 + η) :
-    (Mv * 1000000000).abs ≤ 36893488147419103232 := by
-  simp only [Rat.abs] at hy e3 ⊢
-  grind
+    (Mv * 1000000000).abs ≤ 9223372036854774784 := by
+  rw [abs_mul_of_nonneg_right _ (by grind)] at hx ⊢
+  rw [abs_le_iff] at h e3
+  rcases abs_cases x with ⟨hx', ax⟩ | ⟨hx', ax⟩ <;>
+  rcases abs_cases y with ⟨hy, ay⟩ | ⟨hy, ay⟩ <;>
+  rcases abs_cases Mv with ⟨hm, am⟩ | ⟨hm, am⟩ <;>
+  rw [ax] at h hx <;> rw [ay] at e3 <;> rw [am] <;> grind
 
 /-- the underflow slack is negligible against `|E| ≥ 2^-900` -/
 theorem drift_eta {E : Rat} (hE : pow2 (-900) ≤ E.abs) :
@@ -149,10 +157,12 @@ theorem drift_eta {E : Rat} (hE : pow2 (-900) ≤ E.abs) :
   grind
 
 /-- last step: truncation -/
-theorem drift_final {Rv E T : Rat} (hE : E.abs ≤ 4611686018427387904)
+theorem drift_final {Rv E T : Rat}
     (h : (Rv - E).abs ≤ E.abs / 1125899906842624) (ht : (T - Rv).abs < 1) :
-    (T - E).abs ≤ 1 + E.abs / 1125899906842624 ∧ Rv.abs ≤ 4611686018427392000 := by
-  simp only [Rat.abs] at hE h ht ⊢
-  grind
+    (T - E).abs ≤ 1 + E.abs / 1125899906842624 := by
+  rw [abs_le_iff] at h
+  rw [abs_lt_iff] at ht
+  rcases abs_cases E with ⟨hE, aE⟩ | ⟨hE, aE⟩ <;> rw [aE] at h ⊢ <;>
+  exact abs_le_iff.2 ⟨by grind, by grind⟩
 
 end ScionTime.C18Float
